@@ -16,4 +16,16 @@ for t, d in (('u8', 2), ('u16', 3), ('u32', 5), ('u64', 9), ('i32', 5), ('i64', 
 ub('C02.buf_bits', B, 'h_bits', unwind=34, defines={'NB': 8, 'NFIELDS': 2},
    bound='8 symbolic bytes, n<=8, arbitrary pos, 2 bit reads of arbitrary width (any uint32), with/without size prefix, any version',
    covers='DecoderBuffer::StartBitDecoding/DecodeLeastSignificantBits32/EndBitDecoding, BitDecoder::GetBits/GetBit')
+def lut(usb):
+    pb = max(12, min(20, 3 * usb // 2))
+    return '_ZN5draco11RAnsDecoderILi%dEE24rans_build_look_up_tableEPKjj' % pb
+for usb, tier in ((5, 'quick'), (1, 'thorough'), (12, 'thorough'), (18, 'thorough')):
+    ub('C02.rans_tab_N%d' % usb, 'C18/alloc.cc', 'h_rans_tab', tier=tier, unwind=8, max_alloc=16, allow_alloc_cut=True, stubs={lut(usb): 'havoc'},
+       defines={'BACKING': 48, 'USB': usb},
+       bound='48-byte backing buffer with symbolic contents and length, arbitrary start position, any version; tables up to 4 symbols (larger allocations cut)',
+       covers='RAnsSymbolDecoder<%d>::Create: every write into probability_table_ stays inside the requested allocation (shadow sizes), zero-run tokens, extra bytes; LUT build cut' % usb)
+ub('C02.direct_start', 'C18/alloc.cc', 'h_direct', unwind=14, max_alloc=48, allow_alloc_cut=True, defines={'BACKING': 48},
+   bound='48-byte backing buffer, symbolic length/position/version', covers='DirectBitDecoder::StartDecoding/DecodeNextBit')
+ub('C02.rans_bit_start', 'C18/alloc.cc', 'h_rans_bit', unwind=8, max_alloc=48, allow_alloc_cut=True, defines={'BACKING': 48},
+   bound='48-byte backing buffer, symbolic length/position/version', covers='RAnsBitDecoder::StartDecoding/DecodeNextBit, ans_read_init, rabs_desc_read')
 META = {}
